@@ -33,17 +33,78 @@ def direct(files, r):
     return None
 
 
+def multifile_case(idx, payload):
+    """a toolbox generated from SEVERAL interface files, each with its declarations in a namespace of its own (classes,
+    free functions, enums, nested namespaces): the toolbox must contain exactly what the single-file toolboxes contain —
+    the same files with the same structure, one collector and clean-up loop per class of any file"""
+    from props import c05
+    seed, _ = payload
+    texts = c05.multifile_texts(seed + 77, idx, extra_kinds=('cls', 'ns', 'func', 'enum'))
+    res = dict(idx=idx, text="\x1e".join(texts), bad=None, ran=False)
+    singles = [impl_matlab([t], "mymod", [], False) for t in texts]
+    if any(s_[0] != "ok" for s_ in singles):
+        return res
+    st, out = impl_matlab(texts, "mymod", [], False)
+    res["ran"] = True
+    if st != "ok":
+        res["bad"] = "every file is accepted alone but the list of files is rejected (%s)" % out
+        return res
+    want, coll, rtti = {}, [], []
+    for _, o in singles:
+        want.update({k: v for k, v in pj.matlab_tree_facts(o).items() if k.endswith(".m")})
+        pf = pj.preamble_facts(o, "mymod")
+        coll += pf["collectors"]
+        rtti += pf["rtti"]
+    got = {k: v for k, v in pj.matlab_tree_facts(out).items() if k.endswith(".m")}
+    if got != want:
+        miss, extra = sorted(set(want) - set(got)), sorted(set(got) - set(want))
+        diff = sorted(k for k in set(want) & set(got) if want[k] != got[k])
+        res["bad"] = "files of the toolbox are not those of the single files: missing %s, unexpected %s, different structure %s" % (miss[:4], extra[:4], diff[:4])
+        return res
+    pf = pj.preamble_facts(out, "mymod")
+    if sorted(pf["collectors"]) != sorted(coll) or sorted(pf["deleted"]) != sorted(coll):
+        res["bad"] = "collectors %s / clean-up loops %s of the toolbox are not those of the single files %s" % (sorted(pf["collectors"])[:6], sorted(pf["deleted"])[:6], sorted(coll)[:6])
+    elif sorted(pf["rtti"]) != sorted(rtti):
+        res["bad"] = "RTTI entries of the toolbox are not those of the single files"
+    else:
+        res["bad"] = direct(out, None)
+    return res
+
+
+def multifile_stream(ctx, n, off=0, collect=True):
+    first = None
+    for r in fw.run_cases(multifile_case, [(ctx.seed + off, None)] * n):
+        if "crash" in r:
+            raise RuntimeError(r["crash"])
+        if collect:
+            ctx.case("multifile" + r["text"], nontrivial=r["ran"], sample=None)
+            ctx.count("multifile_toolboxes" if r["ran"] else "multifile_skipped")
+        if r["bad"]:
+            v = dict(what="toolbox generated from several interface files: " + r["bad"], files=r["text"].split("\x1e"))
+            first = first or v
+            if collect:
+                ctx.spec_fail(v["what"], files=v["files"])
+        elif collect and r["ran"]:
+            ctx.traces_validated += 1
+    return first
+
+
 def main(ctx):
     search = mc.run(ctx, THEOREM_MODULES, project, direct,
                     "file tree / classdef structure / preamble differ from the proved-correct ones",
                     "MEX preamble is inconsistent", cfg_kw=dict(matlab_safe=True, typedef_same_ns=True),
                     # serializable classes followed by method-less ones; one instantiation under two names
-                    extra_streams=[(dict(p_serialize=0.5, max_members=2), 0.3), (dict(p_dup_typedef=0.7, extra_kinds=['cls']), 0.3),
+                    extra_streams=[(dict(p_serialize=0.5, max_members=2), 0.3),
+                                   # many free functions whose overloads are NOT declared next to each other: one file per name, all overloads in it
+                                   (dict(extra_kinds=['func'] * 8, max_decls=7, max_members=2), 0.4), (dict(p_dup_typedef=0.7, extra_kinds=['cls']), 0.3),
                                    (dict(matlab_ignore=True, p_template=0.6, unique_ns=True, extra_kinds=['ns', 'ns']), 0.4),
                                    # typedefs of FUNCTION templates in an enclosing scope, before the template's namespace (for class templates
                                    # that placement is the known finding C10-typedef-in-enclosing-scope)
                                    (dict(typedef_enclosing=0.9, typedef_enclosing_kinds=['func'], p_template=0.9, n_typedefs=4,
                                          extra_kinds=['ns', 'ns', 'func', 'func', 'func'], max_depth=3), 0.4)])
+    multifile_stream(ctx, ctx.scale(60, 800))
+    search0 = search
+    search = lambda c: search0(c) or multifile_stream(c, c.scale(60, 400), off=5, collect=False)  # noqa
     for e in ctx.known:
         w = e["witness"]
         st, out = impl_matlab([w["input"]], "mymod", w.get("ignore", []), False)
